@@ -5,60 +5,27 @@ From Morfuse Require Import C15.Model C15.Spec C15.ProofsLib C15.ProofsSpec C15.
 Import ListNotations.
 Local Open Scope N_scope.
 
-(* For EVERY history of spawn / SetTargetName / destroy / `$n` / `$n.size` / `$n[i]` /
-   `$n <command>` (targetname, remove, mark, kill j) / `level.c<j> = $n` the code-level table
-   (entries appended and dropped, RemoveObject of the first occurrence, the dead
-   `if (!targetName)` guards, the ConstStrings::Empty key of a never-named object, the
-   snapshot fan-out) observes exactly what the naming list of C15/Spec.v observes: the same
-   value (NULL + NoTarget warning / the object / the group in naming order), the same size
-   and elements, the same receivers in the same order, the same members of all five names and
-   the same never-named objects after every operation. *)
+(* For EVERY history of spawn / SetTargetName / destroy / `t` / `t.size` / `t[i]` /
+   `t <command>` (targetname, remove, mark, kill j) / `t.<field> = v` (a plain field,
+   targetname, a setter that fails for one object, a setter that destroys an object) /
+   `level.c<j> = $n`, where t is `$n` or a stored `level.c<j>`, the code-level table (entries
+   appended and dropped, RemoveObject of the first occurrence, the dead `if (!targetName)`
+   guards, the ConstStrings::Empty key of a never-named object, the array taken by `$n`, the
+   fan-out loops of ExecCmdMethodCommon and loadTopGroup) observes exactly what the naming
+   list of C15/Spec.v observes: the same value (NULL + NoTarget warning / the object / the
+   group in naming order), the same size and elements, the same receivers in the same order,
+   the same warnings, the same members of all five names and the same never-named objects
+   after every operation. *)
 Theorem C15_the_table_refines_the_naming_list :
-  forall ops : list op, forallb plain ops = true -> run ops = spec_run ops.
-Proof. exact plain_run_refines_spec. Qed.
+  forall ops : list op, run ops = spec_run ops.
+Proof. exact run_refines_spec. Qed.
 Print Assumptions C15_the_table_refines_the_naming_list.
 
-(* The same for every history none of whose observations raises a flag: that includes field
-   assignments to `$n` when `$n` is no group, and every use of a stored value that is NULL or
-   a single object. *)
-Theorem C15_every_unflagged_history_refines_the_naming_list :
-  forall ops : list op, Forall (fun o => oflag o = 0) (run ops) -> run ops = spec_run ops.
-Proof. exact unflagged_run_refines_spec. Qed.
-Print Assumptions C15_every_unflagged_history_refines_the_naming_list.
-
-(* ALL histories: model and specification agree observation by observation, except that a
-   field assignment to a `$n` group (flag 1) is observed differently (both raise the flag,
-   the states stay related) and that nothing is claimed from the first use of a stored
-   group (flag 2, raised by both) on. *)
-Theorem C15_all_histories_agree_up_to_the_two_flags :
-  forall ops : list op, agree (run ops) (spec_run ops).
-Proof. exact run_agrees_with_spec. Qed.
-Print Assumptions C15_all_histories_agree_up_to_the_two_flags.
-
 Theorem C15_every_operation_keeps_the_simulation :
-  forall m a o, R m a -> step_ok m a o.
+  forall m a o, R m a ->
+    snd (step m o) = snd (spec_step a o) /\ R (fst (step m o)) (fst (spec_step a o)).
 Proof. exact step_sim. Qed.
 Print Assumptions C15_every_operation_keeps_the_simulation.
-
-(* The full statement  forall ops, run ops = spec_run ops  is FALSE of the code:
-   (1) a field assignment to a group does not fan out (CastError, nobody is reached);
-   (2) a stored group aliases the live list instead of the objects it denoted when stored;
-   (3) once the name's entry was dropped the stored value points at a dead entry. *)
-Theorem C15_field_assignment_to_a_group_refuted :
-  run witness_field <> spec_run witness_field.
-Proof. exact field_witness_differs. Qed.
-Print Assumptions C15_field_assignment_to_a_group_refuted.
-
-Theorem C15_stored_group_aliases_the_live_list_refuted :
-  run witness_stored_alias <> spec_run witness_stored_alias.
-Proof. exact stored_alias_witness_differs. Qed.
-Print Assumptions C15_stored_group_aliases_the_live_list_refuted.
-
-Theorem C15_stored_group_dangles_after_the_entry_is_dropped :
-  map oundef (run witness_stored_dangling) = [false; false; false; false; true] /\
-  map oval_ (spec_run witness_stored_dangling) = [ONone; ONone; ONone; ONone; OInt 2].
-Proof. exact stored_dangling_witness_undefined. Qed.
-Print Assumptions C15_stored_group_dangles_after_the_entry_is_dropped.
 
 (* ---- what the specification guarantees *)
 Theorem C15_spec_invariant_is_kept :
@@ -106,6 +73,38 @@ Theorem C15_spec_remove_reaches_the_whole_group :
 Proof. exact fanout_remove_kills. Qed.
 Print Assumptions C15_spec_remove_reaches_the_whole_group.
 
+(* the clause "field assignments applied to `$name` reach every object in the group exactly
+   once": members only, each at most once ... *)
+Theorem C15_spec_field_assignment_reaches_members_only_and_once :
+  forall grp a f log,
+    exists l', snd (fst (s_ffanout a grp f log)) = log ++ l' /\
+               (forall x, In x l' -> In x grp) /\ (NoDup grp -> NoDup l').
+Proof. exact ffanout_receivers. Qed.
+Print Assumptions C15_spec_field_assignment_reaches_members_only_and_once.
+
+(* ... and all of them, in naming order, without error, for a plain field ... *)
+Theorem C15_spec_field_assignment_reaches_the_whole_group :
+  forall a n, s_ffanout a (lookup n (sobjs a)) FTag [] = (a, lookup n (sobjs a), false).
+Proof. exact tag_reaches_the_group. Qed.
+Print Assumptions C15_spec_field_assignment_reaches_the_whole_group.
+
+(* ... and `$n.targetname = x` gives every bearer of n the name x *)
+Theorem C15_spec_targetname_through_the_group_moves_everyone :
+  forall a n x k, In k (lookup n (sobjs a)) ->
+    find_name (sobjs (fst (fst (s_ffanout a (lookup n (sobjs a)) (FName x) [])))) k = Some (norm x) /\
+    snd (s_ffanout a (lookup n (sobjs a)) (FName x) []) = false.
+Proof. exact name_through_the_group_moves_everyone. Qed.
+Print Assumptions C15_spec_targetname_through_the_group_moves_everyone.
+
+(* a stored group keeps denoting the objects it held: same size, element i = the i-th object
+   or NULL once it is dead - whatever happened to the table since *)
+Theorem C15_a_stored_group_is_stable :
+  forall o l,
+    look o (VArr l) = RGrp (map (fun k => if alive_in o k then k else 0) l) /\
+    q_size (look o (VArr l)) = OInt (N.of_nat (length l)).
+Proof. exact stored_group_is_stable. Qed.
+Print Assumptions C15_a_stored_group_is_stable.
+
 (* Non-vacuity.  Objects 1,2,3 take the name 1; re-naming 2 with the same name moves it to the
    end; `$1 kill 3` reaches 1 (who kills 3), not the dead 3, then 2; `$1 targetname 2` moves
    both; `$1` is then NULL with the NoTarget warning; object 4 is never named, object 5 is
@@ -133,11 +132,31 @@ Example C15_history_example :
     (ONone, [WNoTarget; WNull], [], [[]; []; []; []; [5]; [4]]) ].
 Proof. vm_compute. reflexivity. Qed.
 
-(* the three defects, as (model, specification) observations of the last operation *)
-Example C15_defect_example :
-  (map (fun o => (owarn o, olog o)) (skipn 2 (run witness_field)),
-   map (fun o => (owarn o, olog o)) (skipn 2 (spec_run witness_field)),
-   map oval_ (skipn 4 (run witness_stored_alias)),
-   map oval_ (skipn 4 (spec_run witness_stored_alias))) =
-  ([([WCast], [])], [([], [1; 2])], [OInt 3], [OInt 2]).
+(* Field assignments and stored groups (the three former defects, now regression examples).
+   Objects 1,2,3 bear the name 1.  A plain field reaches 1,2,3; `fuse = 2` reaches 1, then 2
+   whose setter fails, and not 3; `zap = 3` reaches 1 (who destroys 3) and 2; the stored `$1`
+   = [1,2] keeps its size when 4 joins the name and reads NULL for the destroyed 1;
+   `level.c1.targetname = 2` moves the surviving member 2 only; after that the name's entry is
+   gone and the stored group still denotes [NULL, 2]. *)
+Example C15_field_and_stored_group_example :
+  map (fun o => (oval_ o, owarn o, olog o, odump o))
+      (run [ OSpawn 1; OSpawn 1; OSpawn 1;
+             OField (TName 1) FTag; OField (TName 1) (FFuse 2); OField (TName 1) (FZap 3);
+             OCapture 1 1; OSpawn 1; OSize (TCap 1); ODestroy 1; OQuery (TCap 1);
+             OField (TCap 1) (FName 2); ODestroy 4; OQuery (TCap 1); OCmd (TCap 1) CMark ]) =
+  [ (ONone, [], [], [[1]; []; []; []; []; []]);
+    (ONone, [], [], [[1; 2]; []; []; []; []; []]);
+    (ONone, [], [], [[1; 2; 3]; []; []; []; []; []]);
+    (ONone, [], [1; 2; 3], [[1; 2; 3]; []; []; []; []; []]);
+    (ONone, [WFail], [1; 2], [[1; 2; 3]; []; []; []; []; []]);
+    (ONone, [], [1; 2], [[1; 2]; []; []; []; []; []]);
+    (ONone, [], [], [[1; 2]; []; []; []; []; []]);
+    (ONone, [], [], [[1; 2; 4]; []; []; []; []; []]);
+    (OInt 2, [], [], [[1; 2; 4]; []; []; []; []; []]);
+    (ONone, [], [], [[2; 4]; []; []; []; []; []]);
+    (OGrp [0; 2], [], [], [[2; 4]; []; []; []; []; []]);
+    (ONone, [], [], [[4]; [2]; []; []; []; []]);
+    (ONone, [], [], [[]; [2]; []; []; []; []]);
+    (OGrp [0; 2], [], [], [[]; [2]; []; []; []; []]);
+    (ONone, [], [2], [[]; [2]; []; []; []; []]) ].
 Proof. vm_compute. reflexivity. Qed.
